@@ -249,8 +249,36 @@ def gen_sequence(rng, layout):
     return steps
 
 
+def gen_rootgone_sequence(rng, layout):
+    """ONE LocalStorage instance; a first ordinary operation, then the storage directory is removed ('rmroot') or removed
+    together with its parent directory ('rmparent'), then exists / file_handle in EVERY mode / delete / find_keys on the
+    same instance, on the key used before, on a fresh key and on other names of the layout. Whatever the operations
+    answer, nothing may be created at or above the place where the storage directory was."""
+    rootn, keyn, _ = layout_names(layout)
+    K = rng.choice(['k1', 'k1', 'k2', 'newkey'])
+    steps = [dict(mut=[], op='fh', key=K, fn=rng.choice(['data', 'f']), mode=rng.choice(['w', 'a', 'wb']))]
+    kind = rng.choice(['rmparent', 'rmparent', 'rmroot'])
+    ops = [dict(op='fh', fn=rng.choice(['data', 'f', 'metadata.json']), mode=m) for m in MODES]
+    ops += [dict(op='exists', fn='', mode=''), dict(op='delete', fn='', mode='')]
+    rng.shuffle(ops)
+    ops = ops[:rng.choice([4, 6, len(ops)])]
+    if rng.random() < 0.3:
+        ops.append(dict(op='find_keys', fn='', mode=''))
+    for i, o in enumerate(ops):
+        r = rng.random()
+        key = '' if o['op'] == 'find_keys' else K if r < 0.6 else 'fresh' if r < 0.8 else gen_string(rng, rootn, adversarial=False)
+        steps.append(dict(mut=[[kind, '', '']] if i == 0 else [], key=key, **o))
+    return steps
+
+
 def apply_mutation(sbx, mut):
     kind, rel, arg = mut
+    if kind in ('rmroot', 'rmparent'):
+        # the storage directory goes away under a live LocalStorage object (unmounted disk, cleaned-up temporary
+        # directory, a user deleting the output folder): 'rmroot' removes the storage directory alone, 'rmparent'
+        # removes it together with its parent directory SB (the outside canaries go with it; TOP/w stays)
+        shutil.rmtree(sbx.root if kind == 'rmroot' else sbx.sb, ignore_errors=True)
+        return
     assert '..' not in rel.split('/') and not rel.startswith('/')
     p = os.path.join(sbx.sb, rel)
     parent = os.path.dirname(p)
@@ -527,6 +555,11 @@ def monitor(sbx, case, before, after, changes):
     inside = []
     for c in changes:
         kind, p = c.split(':', 1)
+        if root not in before and kind in ('mkdir', 'write', 'link') and (p == root or root.startswith(p + '/')):
+            alarms.append(f'{case["op"]} created a node at or above the place of the storage directory, which had been removed before the '
+                          f'operation: {kind} {os.path.relpath(p, os.path.dirname(sbx.sb))} (the storage directory was '
+                          f'{os.path.relpath(root, os.path.dirname(sbx.sb))}); nothing outside the storage directory may be created')
+            continue
         if not (p == root or p.startswith(root + '/')) or p == root:
             alarms.append(f'{case["op"]} changed a node outside the storage directory: {kind} {os.path.relpath(p, sbx.sb)}')
             continue
